@@ -20,7 +20,7 @@ RULE = ("a case is (hash algorithm, secret p as text or bytes - empty, Unicode, 
         "dumps/loads in every format so the same challenges keep their outcome, and a plaintext written by hand into "
         "a document is hashed on load; non-trivial = non-empty p with >= 3 near misses judged; distinct = distinct "
         "case content")
-REQUIRED = ("reset_default_checks", "bulk_list_salt_checks", "digests_recomputed", "fresh_salt_checks", "challenge_accepts_p", "challenge_rejects_q", "leak_scans_memory",
+REQUIRED = ("same_field_reassignments", "env_bound_unset_variable", "reset_default_checks", "bulk_list_salt_checks", "digests_recomputed", "fresh_salt_checks", "challenge_accepts_p", "challenge_rejects_q", "leak_scans_memory",
             "leak_scans_documents", "roundtrips_digest_unchanged", "plaintext_in_document_hashed", "alg:md5", "alg:sha1",
             "alg:sha224", "alg:sha256", "alg:sha384", "alg:sha512")
 ASSUMPTIONS = ["hashlib is the reference implementation of the six algorithms", "documents are produced/decoded with the "
@@ -52,7 +52,10 @@ def generate(rng, ctx):
     as_bytes = rng.random() < 0.3
     return {"alg": alg, "p": p.encode() if as_bytes else p, "tok": tok if tok in p else None,
             "place": rng.choice(["root", "nested", "list-item", "list-of-challenge", "default-plain", "default-digest"]),
-            "fmts": rng.sample(trees.FORMATS, rng.choice([2, 3, 5])), "upper": rng.random() < 0.3}
+            "fmts": rng.sample(trees.FORMATS, rng.choice([2, 3, 5])), "upper": rng.random() < 0.3,
+            # the field may be bound to an environment variable that is NOT set (must behave as if unbound)
+            "env": rng.choice([None, None, "field-named", "field-auto", "schema-prefix"]),
+            "reassign_route": rng.choice(["attr", "item", "attr"])}
 
 
 def abbreviate(case):
@@ -95,8 +98,15 @@ def run(case, ctx, res):
     res.count("alg:" + alg)
     algname = alg.upper() if case["upper"] else alg
     feat = "%s:%s" % (place, alg)
-    schema = cc.Schema()
-    item = cc.Schema()
+    envmode = case.get("env")
+    if envmode:
+        import os
+
+        if any(k.startswith("VFC09") for k in os.environ):
+            return
+        res.count("env_bound_unset_variable")
+    schema = cc.Schema(env="VFC09P") if envmode == "schema-prefix" else cc.Schema()
+    item = cc.Schema(env="VFC09I") if envmode == "schema-prefix" else cc.Schema()
     item.pw = cc.ChallengeField(algname)
     item.n = cc.IntField(default=0)
     kw = {}
@@ -104,8 +114,12 @@ def run(case, ctx, res):
         kw["default"] = p
     elif place == "default-digest":
         kw["default"] = cc.DigestValue.create(p, cc.ChallengeField.ALGORITHMS[alg])
+    if envmode == "field-named":
+        kw["env"] = "VFC09_PW"
+    elif envmode == "field-auto":
+        kw["env"] = True
     schema.pw = cc.ChallengeField(algname, **kw)
-    schema.sub.deep.pw = cc.ChallengeField(algname)
+    schema.sub.deep.pw = cc.ChallengeField(algname, **({"env": "VFC09_DEEP"} if envmode == "field-named" else {}))
     schema.items = cc.ListField(item)
     schema.pws = cc.ListField(cc.ChallengeField(algname))
     schema.name = cc.StringField(default="n")
@@ -158,6 +172,31 @@ def run(case, ctx, res):
         if len(set(bytes(v1.salt))) <= 2 and size >= 16:
             res.viol("M-digest", "salt-not-random:" + feat, "salt %s" % bytes(v1.salt).hex())
             return
+    # the same secret assigned again to the same field of the same configuration gets a new salt
+    if pb and place != "list-of-challenge":
+        target = {"root": "pw", "default-plain": "pw", "default-digest": "pw", "nested": "sub.deep.pw", "list-item": None}[place]
+        try:
+            if target is None:
+                cfg1.items[0].pw = p if isinstance(p, str) else p.decode()
+            elif case.get("reassign_route") == "item":
+                cfg1[target] = p
+            else:
+                holder = cfg1
+                for seg in target.split(".")[:-1]:
+                    holder = getattr(holder, seg)
+                setattr(holder, target.split(".")[-1], p)
+        except Exception as exc:
+            res.viol("M-digest", "reassign-raises:" + feat, "assigning the same secret again raised %r" % (exc,))
+            return
+        again = value_of(cfg1)
+        res.count("same_field_reassignments")
+        if not isinstance(again, cc.DigestValue) or hashlib.new(alg, bytes(again.salt) + pb).digest() != bytes(again.digest):
+            res.viol("M-digest", "not-a-digest:reassign:" + feat, "after assigning the secret again the field holds %r" % (_short(again),))
+            return
+        if bytes(again.salt) == bytes(v1.salt):
+            res.viol("M-digest", "salt-reused:reassign", "assigning the same secret again to the same field kept the salt %s" % bytes(v1.salt).hex()[:16])
+            return
+        v1 = again
     # a reset of a plaintext default must hash again; repeated secrets in one bulk list operation get their own salts
     if place == "default-plain" and isinstance(p, str):
         cc.reset_value(cfg1, "pw")
@@ -256,6 +295,13 @@ def run(case, ctx, res):
                 continue
             res.viol("M-roundtrip", "challenge-after-reload-accepts-q:%s" % place, "%s: challenge(%r) succeeds after reload" % (fmt, _short(q)))
             return
+        if pb and place in ("root", "default-plain", "default-digest"):
+            fresh.pw = p
+            res.count("same_field_reassignments")
+            if not isinstance(fresh.pw, cc.DigestValue) or bytes(fresh.pw.salt) == bytes(w.salt):
+                res.viol("M-digest", "salt-reused:reassign-after-reload", "%s: assigning the secret again after a reload kept the stored "
+                         "salt (value %r)" % (fmt, _short(fresh.pw)))
+                return
     # a plaintext written by hand into a document is hashed on load
     if isinstance(p, str) and p:
         fmt = case["fmts"][0]
